@@ -343,7 +343,35 @@ fn gen_chains(tier: Tier, emit: Emit) {
 // ---------------------------------------------------------------------------------------------
 // assign family
 
+/// many statements of one kind in one frame: nothing may accumulate per statement
+fn gen_many_statements(emit: Emit) {
+    let kinds: Vec<(&str, Box<dyn Fn(i64) -> X>)> = vec![
+        ("index-assign", Box::new(|i| x(E::Assign(Tgt::Index(id("l"), int(i % 2)), bin(Op::Add, id("x"), int(i)))))),
+        ("key-assign", Box::new(|i| x(E::Assign(Tgt::Access(id("m"), "k".into()), bin(Op::Mul, id("x"), int(i)))))),
+        ("op-assign-index", Box::new(|i| x(E::OpAssign(Op::Add, Tgt::Index(id("l"), int(i % 2)), bin(Op::Add, id("x"), int(1)))))),
+        ("discarded-call", Box::new(|i| tcall(1, int(i)))),
+        ("discarded-operator", Box::new(|i| bin(Op::Add, id("x"), int(i)))),
+        ("multi-assign", Box::new(|i| x(E::MultiAssign(vec![Tgt::Id("a".into()), Tgt::Id("b".into())], vec![int(i), bin(Op::Add, id("x"), int(i))])))),
+    ];
+    for (_name, mk) in &kinds {
+        for n in [40i64, 260] {
+            let mut body = vec![assign("x", int(1)), assign("l", list(vec![int(0), int(0)])), assign("m", map(vec![("k", int(0))])), assign("a", int(0)), assign("b", int(0))];
+            // only the last statements print: the traced function is quiet for the others
+            body.extend((0..n).map(|i| mk(i)));
+            body.push(print(tuple(vec![id("x"), id("l"), id("m"), id("a"), id("b")])));
+            let mut top = vec![assign("t", func(&["n", "v"], vec![id("v")]))];
+            top.extend(body.clone());
+            emit(Case { family: "many-statements", prog: top, shape: vec![] });
+            let mut infn = vec![assign("t", func(&["n", "v"], vec![id("v")]))];
+            infn.push(assign("big", func(&[], body)));
+            infn.push(callf("big", vec![]));
+            emit(Case { family: "many-statements", prog: infn, shape: vec![] });
+        }
+    }
+}
+
 fn gen_assign(tier: Tier, emit: Emit) {
+    gen_many_statements(emit);
     // statement alphabet; state: x (int), l (list), m (map), a, b
     let exprs: Vec<X> = vec![
         int(2),
